@@ -25,6 +25,7 @@ type Case struct {
 	Class    string // mutation class ("none" = unmodified)
 	Role     string // signer | other | twin (same issuer and serial, another key)
 	AllFlips bool   // additionally change every byte of the blob in turn
+	Primer   hx.Hex // when set: the same parsed object is first verified against this (genuine signer) certificate
 }
 
 func genCase(t *rapid.T) Case {
@@ -101,15 +102,23 @@ func genCase(t *rapid.T) Case {
 			c.Role, c.Cert = "twin_of_forger", tw.Cert.Raw
 		}
 	}
+	if c.Role != "signer" && rapid.Bool().Draw(t, "primer") {
+		c.Primer = signer.Cert.Raw
+	}
 	c.AllFlips = hx.Thorough() && len(c.Blob) <= 2048 && rapid.IntRange(0, 49).Draw(t, "allflips") == 0
 	return c
 }
 
 // verdict runs the library on (blob, cert) through every verification entry point.
-func verdict(blob []byte, cert *x509.Certificate) (parsed, matched, accepted bool, how string) {
+func verdict(blob []byte, cert *x509.Certificate, primer *x509.Certificate) (parsed, matched, accepted bool, how string) {
 	p, err := pkcs7.ParsePKCS7(blob)
 	if err != nil {
 		return false, false, false, ""
+	}
+	if primer != nil {
+		// an earlier verification on the same object must not influence a later one
+		p.Verify(primer)
+		hx.Class("same_object_verified_twice")
 	}
 	matched = p.HasCertificate(cert)
 	ok, verr := p.Verify(cert)
@@ -123,6 +132,9 @@ func verdict(blob []byte, cert *x509.Certificate) (parsed, matched, accepted boo
 	}
 	// inside an Authenticode signature (signature part only; the image binding is C02)
 	if a, err := authenticode.ParseAuthenticode(blob); err == nil && a.Pkcs != nil {
+		if primer != nil {
+			a.Pkcs.Verify(primer)
+		}
 		if ok, err := a.Pkcs.Verify(cert); ok && err == nil {
 			return true, matched, true, "Authenticode.Pkcs.Verify"
 		}
@@ -130,9 +142,13 @@ func verdict(blob []byte, cert *x509.Certificate) (parsed, matched, accepted boo
 	return true, matched, false, ""
 }
 
-func checkOne(blob []byte, cert *x509.Certificate, class string) (bool, error) {
+func checkOne(blob []byte, cert *x509.Certificate, class string, primer ...*x509.Certificate) (bool, error) {
 	hx.Eval()
-	parsed, matched, accepted, how := verdict(blob, cert)
+	var pr *x509.Certificate
+	if len(primer) > 0 {
+		pr = primer[0]
+	}
+	parsed, matched, accepted, how := verdict(blob, cert, pr)
 	if !parsed {
 		hx.Class("lib_parse_error/" + short(class))
 		return false, nil
@@ -164,7 +180,13 @@ func checkCase(c Case) error {
 		return fmt.Errorf("bad case: certificate: %v", err)
 	}
 	hx.Class("role/" + c.Role)
-	matched, err := checkOne(c.Blob, cert, c.Class)
+	var primer *x509.Certificate
+	if len(c.Primer) > 0 {
+		if primer, err = x509.ParseCertificate(c.Primer); err != nil {
+			return fmt.Errorf("bad case: primer: %v", err)
+		}
+	}
+	matched, err := checkOne(c.Blob, cert, c.Class, primer)
 	if err != nil {
 		return fmt.Errorf("[seed %s, verifying certificate: %s] %w", c.Seed, c.Role, err)
 	}
